@@ -179,7 +179,7 @@ theorem unary_incr_mixed_order_coordinatewise (st : St) (g : UnF) (tc kt : List 
     (hma : a.mask = none) (hmr : r.mask = none) (hr : IncrFits r a.shape a.dt)
     (hla : a.win.len ≠ 1) (hlr : r.win.len ≠ 1)
     (hor : ∀ i ∈ r.offsets, 0 ≤ i ∧ i < (r.win.len : Int)) (hoa : ∀ j ∈ a.offsets, 0 ≤ j ∧ j < (a.win.len : Int))
-    (hndr : r.offsets.Nodup) (hnda : a.offsets.Nodup)
+    (hndr : r.offsets.Nodup) (hnda : a.offsets.Nodup) (hal : sharesMemory a r = false ∨ sameAccess a r = true)
     (hA : InBuf st a.win.buf a.win.off a.win.len) (hR : InBuf st r.win.buf r.win.off r.win.len) :
     ∃ out, engUnary st g tc kt strict a { incr := some r } = .ok out ∧ out.ret = .reuse ∧ out.reuse = some r ∧
       out.st.mheap = st.mheap ∧
@@ -188,7 +188,7 @@ theorem unary_incr_mixed_order_coordinatewise (st : St) (g : UnF) (tc kt : List 
           cell out.st r.win.buf (r.win.off + m.toNat) = some (.app2 "add" acc (g x))) ∧
       (∀ b' k', b' < st.heap.size → b' ≠ r.win.buf → cell out.st b' k' = cell st b' k') := by
   obtain ⟨st', h, hm, hv, hfr⟩ := engUnary_incr_mixed_order' st g tc kt strict a r (by simpa using htc) (by simpa using hk)
-    (by unfold sameOrd; simpa using hord) hma hmr hr hla hlr hor hoa hndr hnda hA hR
+    (by unfold sameOrd; simpa using hord) hma hmr hr hla hlr hor hoa hndr hnda hal hA hR
   refine ⟨_, h, rfl, rfl, hm, ?_, hfr⟩
   intro k m j hk' hj
   have hmr' := hor m (List.mem_of_getElem? hk')
@@ -239,7 +239,7 @@ def tr : Dense := { ap := { shape := [3, 2], strides := [2, 1] }, win := ⟨1, 0
 example : ta.offsets = [0, 3, 1, 4, 2, 5] ∧ tr.offsets = [0, 1, 2, 3, 4, 5] := by decide
 example := unary_incr_mixed_order_coordinatewise st (fun x => .app1 "neg" x) numberTypes numberTypes true ta tr
   (by decide) (by decide) (by decide) rfl rfl ⟨rfl, by decide, by decide⟩ (by decide) (by decide) (by decide) (by decide)
-  (by decide) (by decide) ⟨_, rfl, by decide⟩ ⟨_, rfl, by decide⟩
+  (by decide) (by decide) (by decide) ⟨_, rfl, by decide⟩ ⟨_, rfl, by decide⟩
 /-- concretely: coordinate (0,1) is cell 1 of `r` and cell 3 of `a`; `r`'s cell 1 becomes `r[1] + neg a[3]` (before the
     repair: `r[1] + neg a[1]`, the element at coordinate (1,0)) -/
 example : ∃ out, engUnary st (fun x => .app1 "neg" x) numberTypes numberTypes true ta { incr := some tr } = .ok out ∧
